@@ -22,6 +22,7 @@ import (
 	"github.com/ethereum/go-ethereum/crypto"
 
 	fxtypes "github.com/functionx/fx-core/v8/types"
+	crosschainkeeper "github.com/functionx/fx-core/v8/x/crosschain/keeper"
 	crosschaintypes "github.com/functionx/fx-core/v8/x/crosschain/types"
 	trontypes "github.com/functionx/fx-core/v8/x/tron/types"
 
@@ -37,7 +38,7 @@ const (
 
 // Op is one operation of a history (JSON = the replay format).
 type Op struct {
-	K   string   `json:"k"`             // fund bond add redel edit withdraw unbond gov params confirm addbatch delbatch addcall delcall slashval block
+	K   string   `json:"k"`             // fund bond add redel edit withdraw unbond gov params confirm addbatch execbatch addcall delcall slashval exportimport block
 	M   int      `json:"m"`             // module index (ignored by block)
 	A   int      `json:"a,omitempty"`   // oracle account id
 	B   int      `json:"b,omitempty"`   // bridger account id
@@ -118,6 +119,11 @@ type modw struct {
 	nsteps   int
 	nextBat  int64
 	nextCall int64
+	user     lib.Key                                  // ordinary account that sends FX to the external chain (pool transactions)
+	nSends   int                                      // pool transactions created so far (fees double each time)
+	events   map[uint64]crosschaintypes.ExternalClaim // the external events reported so far, by event nonce
+	stuck    bool                                     // an event did not reach quorum: no further events in this history
+	exported bool                                     // a genesis export/import happened: id counters restarted, no new batches
 }
 
 type world struct {
@@ -170,6 +176,14 @@ func newWorld(seed int64, modules []string) *world {
 			m.extID[o.ExtAddr] = 200 + e
 		}
 		m.token = crosschaintypes.ExternalAddrToStr(name, crypto.PubkeyToAddress(m.x.NewOracle(2000).External.PublicKey).Bytes())
+		// real batches: FX is a bridge token of the module (what an attested BridgeTokenClaim does), an external block
+		// height has been observed (needed for batch time-outs), and a user holds FX to send out
+		lib.Must(m.x.Keeper.AddBridgeTokenExecuted(c.Ctx, &crosschaintypes.MsgBridgeTokenClaim{TokenContract: m.token, Name: "Function X",
+			Symbol: fxtypes.DefaultDenom, Decimals: 18, ChainName: name}))
+		m.x.Keeper.SetLastObservedBlockHeight(c.Ctx, 1000, uint64(c.Ctx.BlockHeight()))
+		m.user = lib.EthKey(seed, "c13/user/"+name, 0)
+		c.Mint(m.user.Acc(), lib.FX(1_000_000))
+		m.events = map[uint64]crosschaintypes.ExternalClaim{}
 		w.mods = append(w.mods, m)
 	}
 	return w
@@ -399,33 +413,67 @@ func (w *world) apply(op Op) []applied {
 			coqOp = fmt.Sprintf("Confirm KBatch %d %d %d %s", op.N, op.B, op.E, lib.Bool(op.Sig == 0))
 		}
 	case "addbatch":
-		// the batch object is put into the store with the keeper's own StoreBatch (its construction from the
-		// outgoing pool belongs to C05); the slashing loop and the confirm handler that read it are real
-		dest := crypto.PubkeyToAddress(m.extKey[200].PublicKey)
-		batch := &crosschaintypes.OutgoingTxBatch{BatchNonce: uint64(op.N), BatchTimeout: 1 << 40, TokenContract: m.token,
-			Block: uint64(c.Ctx.BlockHeight()), FeeReceive: crosschaintypes.ExternalAddrToStr(m.name, dest.Bytes()),
-			Transactions: []*crosschaintypes.OutgoingTransferTx{{Id: uint64(op.N), Sender: m.acc(0).String(),
-				DestAddress: crosschaintypes.ExternalAddrToStr(m.name, dest.Bytes()),
-				Token:       crosschaintypes.ERC20Token{Contract: m.token, Amount: sdkmath.NewInt(1000)},
-				Fee:         crosschaintypes.ERC20Token{Contract: m.token, Amount: sdkmath.NewInt(1)}}}}
-		try(nil, func(ctx sdk.Context) error {
-			if x.Keeper.GetOutgoingTxBatch(ctx, m.token, uint64(op.N)) != nil {
-				return fmt.Errorf("batch id in use")
+		// a REAL batch: a user sends FX to the external chain (pool transaction whose fee exceeds everything before, so
+		// the batch is "more profitable" than the live ones), then a bridger requests the batch
+		sender := ""
+		for _, kv := range c.DumpPrefix(c.Ctx, m.name, crosschaintypes.OracleAddressByBridgerKey) {
+			sender = sdk.AccAddress(kv.K[1:]).String()
+			break
+		}
+		if sender == "" || m.exported {
+			return nil
+		}
+		dest := crosschaintypes.ExternalAddrToStr(m.name, crypto.PubkeyToAddress(m.extKey[200].PublicKey).Bytes())
+		fee := new(big.Int).Lsh(big.NewInt(1_000_000_000), uint(m.nSends))
+		m.nSends++
+		send := &crosschaintypes.MsgSendToExternal{Sender: m.user.Acc().String(), Dest: dest, ChainName: m.name,
+			Amount: sdk.NewCoin(fxtypes.DefaultDenom, sdkmath.NewInt(1000)), BridgeFee: sdk.NewCoin(fxtypes.DefaultDenom, sdkmath.NewIntFromBigInt(fee))}
+		lib.Must(send.ValidateBasic())
+		lib.Must(c.Try(func(ctx sdk.Context) error { _, e := x.Msg().SendToExternal(ctx, send); return e }))
+		req := &crosschaintypes.MsgRequestBatch{Sender: sender, Denom: fxtypes.DefaultDenom, MinimumFee: sdkmath.NewInt(1), FeeReceive: dest,
+			ChainName: m.name, BaseFee: sdkmath.ZeroInt()}
+		nonce := uint64(m.nextBat)
+		try(req.ValidateBasic, func(ctx sdk.Context) error {
+			resp, e := x.Msg().RequestBatch(ctx, req)
+			if e == nil {
+				nonce = resp.BatchNonce
 			}
-			return x.Keeper.StoreBatch(ctx, batch)
+			return e
 		})
-		coqOp = fmt.Sprintf("AddBatch %d", op.N)
-	case "delbatch":
+		if err == nil {
+			m.nextBat = int64(nonce) + 1
+		}
+		coqOp = fmt.Sprintf("AddBatch %d", nonce)
+	case "execbatch":
+		// the batch was executed on the external chain: every online oracle reports the SendToExternal event through the
+		// real claim path (catching up on earlier events first); the observed event runs OutgoingTxBatchExecuted
+		if x.Keeper.GetOutgoingTxBatch(c.Ctx, m.token, uint64(op.N)) == nil || m.stuck || !m.quorumOnline() {
+			return nil
+		}
+		if !m.observe(&crosschaintypes.MsgSendToExternalClaim{BlockHeight: 1000, BatchNonce: uint64(op.N), TokenContract: m.token, ChainName: m.name}) {
+			m.stuck = true
+			return nil
+		}
+		coqOp = fmt.Sprintf("ExecBatch %d", op.N)
+	case "exportimport":
+		// chain restart from exported state, for this module: real ExportGenesis, empty store, real InitGenesis
 		try(nil, func(ctx sdk.Context) error {
-			// what OutgoingTxBatchExecuted does with a finished batch (batch ids are never reused by the real
-			// code; the generator may reuse one, so the confirms have to go with the batch)
-			if b := x.Keeper.GetOutgoingTxBatch(ctx, m.token, uint64(op.N)); b != nil {
-				x.Keeper.DeleteBatch(ctx, b)
-				x.Keeper.DeleteBatchConfirm(ctx, b.BatchNonce, b.TokenContract)
+			gs := crosschainkeeper.ExportGenesis(ctx, x.Keeper)
+			store := ctx.KVStore(c.App.GetKey(m.name))
+			var keys [][]byte
+			it := store.Iterator(nil, nil)
+			for ; it.Valid(); it.Next() {
+				keys = append(keys, append([]byte{}, it.Key()...))
 			}
+			it.Close()
+			for _, k := range keys {
+				store.Delete(k)
+			}
+			crosschainkeeper.InitGenesis(ctx, x.Keeper, gs)
 			return nil
 		})
-		coqOp = fmt.Sprintf("DelBatch %d", op.N)
+		m.exported = true
+		coqOp = "ExportImport"
 	case "slashval":
 		// the staking module slashes validator V (what evidence / downtime handling does), infraction at the current height
 		amount := big.NewInt(0)
@@ -757,4 +805,56 @@ func mustVal(s string) sdk.ValAddress {
 	v, err := sdk.ValAddressFromBech32(s)
 	lib.Must(err)
 	return v
+}
+
+// quorumOnline: would the votes of all online oracles reach the attestation threshold (66 % of LastTotalPower)?
+func (m *modw) quorumOnline() bool {
+	ctx := m.w.c.Ctx
+	sum := sdkmath.ZeroInt()
+	for _, o := range m.x.Keeper.GetAllOracles(ctx, true) {
+		sum = sum.Add(o.GetPower())
+	}
+	need := crosschaintypes.AttestationVotesPowerThreshold.Mul(m.x.Keeper.GetLastTotalPower(ctx)).Quo(sdkmath.NewInt(100))
+	return sum.IsPositive() && sum.GTE(need)
+}
+
+func cloneClaim(c crosschaintypes.ExternalClaim) crosschaintypes.ExternalClaim {
+	switch x := c.(type) {
+	case *crosschaintypes.MsgSendToExternalClaim:
+		y := *x
+		return &y
+	}
+	panic("unknown claim")
+}
+
+// observe: the next external event (nonce lastObserved+1) is voted by every online oracle, each one first re-reporting
+// the earlier events it has not voted on yet (the same claims, from the log). True when the event became observed.
+func (m *modw) observe(claim *crosschaintypes.MsgSendToExternalClaim) bool {
+	c := m.w.c
+	k := m.x.Keeper
+	target := k.GetLastObservedEventNonce(c.Ctx) + 1
+	claim.EventNonce = target
+	m.events[target] = claim
+	for _, o := range k.GetAllOracles(c.Ctx, true) {
+		id, ok := m.accID[o.BridgerAddress]
+		if !ok {
+			continue
+		}
+		voter := &lib.Oracle{Bridger: m.accKey[id]}
+		for n := k.GetLastEventNonceByOracle(c.Ctx, o.GetOracle()) + 1; n <= target; n++ {
+			ev, ok := m.events[n]
+			if !ok {
+				break
+			}
+			cl := cloneClaim(ev).(*crosschaintypes.MsgSendToExternalClaim)
+			cl.EventNonce = n
+			if err := m.x.Claim(voter, cl); err != nil {
+				break
+			}
+		}
+		if k.GetLastObservedEventNonce(c.Ctx) >= target {
+			return true
+		}
+	}
+	return k.GetLastObservedEventNonce(c.Ctx) >= target
 }
